@@ -253,6 +253,39 @@ func init() {
 				c.Fail("perform-condition", c.P.Pos(rs.Pos()), "UNDECIDED: no delete from reconfigRequests in resetStreamsIfAny")
 				return
 			}
+			// a performed request is always forgotten: from the response "performed" back — every return of
+			// resetStreamsIfAny that is reached on the perform edge has passed the delete (a delete that sits inside the
+			// loop over the listed streams is skipped when none of them exists: the request stays stored, is re-run
+			// after every later TSN and the map grows without bound)
+			{
+				isDel := func(in ssa.Instruction) bool {
+					call, ok := in.(*ssa.Call)
+					if !ok {
+						return false
+					}
+					b, isB := call.Call.Value.(*ssa.Builtin)
+					return isB && b.Name() == "delete" && IsLoadOf(rq)(call.Call.Args[0])
+				}
+				// the perform branch: successor block of the If whose true edge carries the perform situations
+				okAll, nBr := true, 0
+				forEachInstr(rs, func(in ssa.Instruction) {
+					ifi, isIf := in.(*ssa.If)
+					if !isIf {
+						return
+					}
+					for si, succ := range ifi.Block().Succs {
+						cc, tt := normCond(ifi.Cond, si == 0)
+						if serialSituations([]condFact{{cc, tt}}, sender, peer) != perform || perform == snaAll {
+							continue
+						}
+						nBr++
+						if ok, _ := MustPassFromBlock(succ, isDel, PathOpts{}); !ok {
+							okAll = false
+						}
+					}
+				})
+				c.Check(nBr >= 1 && okAll, "performed-request-always-forgotten", c.P.Pos(rs.Pos()), "every path of the perform branch deletes the stored request", "a performed reset request can stay in reconfigRequests (the delete is not on every path of the perform branch): it is performed again after every later TSN and stored requests pile up without bound")
+			}
 			// cap set: situations under which the too-many error is returned
 			n := 0
 			for _, r := range allReturns(h) {
@@ -609,6 +642,144 @@ func init() {
 			}
 			c.Check(n >= 1, "success-returns", c.P.Pos(fn.Pos()), fmt.Sprintf("%d nil return(s)", n), "Shutdown has no success return")
 			c.WritersWithin("completed-flag", sc, "Association.handleShutdownComplete", "Association.gatherOutboundShutdownPackets")
+		}})
+
+	register(&Rule{ID: "C05.R12", Props: []string{"C05", "C11"}, Engine: "E2-sibling",
+		Title:   "one TSN, one bitmap cell: in receivePayloadQueue.hasChunk / push / pop the word index is (T/64) mod len(tsnBitmask) and the bit is T mod 64 for one and the same T (the TSN being tested, recorded or released) — a cell computed from a neighbouring TSN (cumulative+1 written as offset+1) agrees 63 times out of 64 and leaves a stale bit at every word boundary, which one ring length later is read as a TSN that never arrived",
+		MinInst: 3,
+		Run: func(c *RuleCtx) {
+			bm := c.field("receivePayloadQueue", "tsnBitmask")
+			n := 0
+			for _, name := range []string{"receivePayloadQueue.hasChunk", "receivePayloadQueue.push", "receivePayloadQueue.pop"} {
+				fn := c.Fn(name)
+				var idxT, bitT []ssa.Value
+				okShape := true
+				why := ""
+				for _, g := range c.P.Region(fn) {
+					forEachInstr(g, func(in ssa.Instruction) {
+						switch x := in.(type) {
+						case *ssa.IndexAddr:
+							if !IsLoadOf(bm)(x.X) {
+								return
+							}
+							rem, ok := unconv(x.Index).(*ssa.BinOp)
+							if !ok || rem.Op != token.REM {
+								okShape, why = false, "word index is not (T/64) mod len"
+								return
+							}
+							quo, ok := unconv(rem.X).(*ssa.BinOp)
+							if !ok || quo.Op != token.QUO || !IsConstInt(64)(quo.Y) {
+								okShape, why = false, "word index is not (T/64) mod len"
+								return
+							}
+							idxT = append(idxT, unconv(quo.X))
+						case *ssa.BinOp:
+							if x.Op != token.SHL || !IsConstInt(1)(unconv(x.X)) {
+								return
+							}
+							rem, ok := unconv(x.Y).(*ssa.BinOp)
+							if !ok || rem.Op != token.REM || !IsConstInt(64)(rem.Y) {
+								okShape, why = false, "bit position is not T mod 64 (an offset was added or the expression changed)"
+								return
+							}
+							bitT = append(bitT, unconv(rem.X))
+						}
+					})
+				}
+				if len(idxT) == 0 && len(bitT) == 0 {
+					continue // delegates to a helper examined under its own name
+				}
+				n++
+				same := len(idxT) > 0 && len(bitT) > 0
+				all := append(append([]ssa.Value{}, idxT...), bitT...)
+				for _, v := range all {
+					if !sameExpr(all[0], v, 0) {
+						same = false
+					}
+				}
+				c.Check(okShape && same, "cell-of-one-tsn@"+name, c.P.Pos(fn.Pos()), "word (T/64)%len and bit T%64 of the same T", "the bitmap cell is not computed from one TSN ("+why+"): at a word boundary a different cell is touched than the one that was tested")
+			}
+			c.Check(n >= 3, "bitmap-accessors", "", fmt.Sprintf("%d accessor(s)", n), "fewer bitmap accessors than reviewed")
+		}})
+
+	register(&Rule{ID: "C10.R12", Props: []string{"C10"}, Engine: "E2-dataflow",
+		Title:   "the peer's window is only ever taken from what the peer advertised, or reduced: no call of setRWND passes RWND() plus something (credit handed back locally — e.g. for bytes a SHUTDOWN acknowledged — was never advertised: after a window probe it turns the clamped zero into room for several chunks)",
+		MinInst: 3,
+		Run: func(c *RuleCtx) {
+			setR := c.Fn("Association.setRWND")
+			n := 0
+			ks := keyer{}
+			for _, cs := range c.P.CallSitesOf(setR) {
+				n++
+				arg := callArg(cs.Instr, 1)
+				grows := false
+				for _, lf := range phiLeaves(arg) {
+					if b, ok := unconv(lf.Val).(*ssa.BinOp); ok && b.Op == token.ADD {
+						isR := func(v ssa.Value) bool {
+							call, isCall := unconv(v).(*ssa.Call)
+							return isCall && call.Call.StaticCallee() != nil && call.Call.StaticCallee().Name() == "RWND"
+						}
+						if isR(b.X) || isR(b.Y) {
+							grows = true
+						}
+					}
+				}
+				c.Check(!grows, ks.key("rwnd-never-credited-locally@"+c.P.FuncName(enclosingNamed(cs.Fn))), c.Pos(cs.Instr.(ssa.Instruction)), "advertised value or a reduction", "setRWND(RWND() + …): receive-window credit is created locally instead of being taken from an advertisement")
+			}
+			c.Check(n >= 3, "rwnd-update-sites", "", fmt.Sprintf("%d site(s)", n), "fewer setRWND sites than reviewed")
+		}})
+
+	register(&Rule{ID: "C10.R13", Props: []string{"C10"}, Engine: "E3",
+		Title:   "the window cut by a loss signal is held during the recovery: in onCumulativeTSNAckPointAdvanced every setCWND that grows the window is dominated by !inFastRecovery or by cwnd strictly above ssthresh — entering fast recovery leaves cwnd == ssthresh, so a congestion-avoidance branch taken at equality would open the window again while the loss is still being repaired",
+		MinInst: 2,
+		Run: func(c *RuleCtx) {
+			fn := c.Fn("Association.onCumulativeTSNAckPointAdvanced")
+			setC := c.Fn("Association.setCWND")
+			inFR := c.field("Association", "inFastRecovery")
+			ssth := c.field("Association", "ssthresh")
+			isCwnd := func(v ssa.Value) bool {
+				call, isCall := unconv(v).(*ssa.Call)
+				return isCall && call.Call.StaticCallee() != nil && call.Call.StaticCallee().Name() == "CWND"
+			}
+			n := 0
+			ks := keyer{}
+			for _, g := range c.P.Region(fn) {
+				for _, cs := range callsIn(g, setC) {
+					grows := derives(callArg(cs, 1), func(v ssa.Value) bool {
+						b, ok := v.(*ssa.BinOp)
+						return ok && b.Op == token.ADD && (derives(b.X, isCwnd, map[ssa.Value]bool{}) || derives(b.Y, isCwnd, map[ssa.Value]bool{}))
+					}, map[ssa.Value]bool{})
+					if !grows {
+						continue
+					}
+					n++
+					ok := false
+					for _, ft := range localFactsUpTo(cs.(ssa.Instruction), fn) {
+						if BoolCond(IsLoadOf(inFR), false)(ft.Cond, ft.Taken) {
+							ok = true
+						}
+						b, isB := ft.Cond.(*ssa.BinOp)
+						if !isB {
+							continue
+						}
+						op, x, y := b.Op, b.X, b.Y
+						if isCwnd(y) && IsLoadOf(ssth)(x) {
+							op, x, y = swapOp(op), y, x
+						}
+						if !(isCwnd(x) && IsLoadOf(ssth)(y)) {
+							continue
+						}
+						if !ft.Taken {
+							op = invertOp(op)
+						}
+						if op == token.GTR {
+							ok = true
+						}
+					}
+					c.Check(ok, ks.key("growth-not-during-recovery"), c.Pos(cs.(ssa.Instruction)), "!inFastRecovery or cwnd > ssthresh", "the congestion window can grow while cwnd == ssthresh inside fast recovery: the window a loss signal cut is opened again before the loss is repaired")
+				}
+			}
+			c.Check(n >= 2, "growth-sites", c.P.Pos(fn.Pos()), fmt.Sprintf("%d growth site(s)", n), "fewer window-growth sites than reviewed")
 		}})
 }
 
